@@ -270,15 +270,11 @@ func (s *st39) apply(o int) {
 // ---- oracle ------------------------------------------------------------------------------
 
 type view39 struct {
-	cfg       *ssc.StakingNodesConfig
-	head      *ssc.WaitingList
-	walk      []string // element storage keys in list order
-	walkErr   string
-	reg       []*ssc.StakedDataV2_0
-	nStaked   int64
-	nWaiting  int
-	lastJIdx  int
-	elemCount int
+	cfg     *ssc.StakingNodesConfig
+	head    *ssc.WaitingList
+	walk    []string // element storage keys in list order
+	reg     []*ssc.StakedDataV2_0
+	nStaked int64
 }
 
 func short(k []byte) string {
@@ -294,7 +290,7 @@ func short(k []byte) string {
 
 func (s *st39) view() *view39 {
 	w := s.v.w
-	v := &view39{lastJIdx: -1}
+	v := &view39{}
 	v.cfg = &ssc.StakingNodesConfig{}
 	raw := w.get(vm.StakingSCAddress, sscKeys.NodesConfig)
 	if len(raw) == 0 {
@@ -310,14 +306,6 @@ func (s *st39) view() *view39 {
 		v.reg = append(v.reg, d)
 		if d != nil && d.Staked {
 			v.nStaked++
-		}
-		if d != nil && d.Waiting {
-			v.nWaiting++
-		}
-	}
-	for k := range w.storage[string(vm.StakingSCAddress)] {
-		if strings.HasPrefix(k, sscKeys.WaitingElementPrefix) && k != sscKeys.WaitingListHead {
-			v.elemCount++
 		}
 	}
 	return v
@@ -406,11 +394,9 @@ func (s *st39) check() (string, string) {
 		}
 		// (2) the last-jailed marker is empty or designates an element of the list
 		if len(v.head.LastJailedKey) != 0 {
-			idx, ok := inList[string(v.head.LastJailedKey)]
-			if !ok {
+			if _, ok := inList[string(v.head.LastJailedKey)]; !ok {
 				return fail("last-jailed-key-not-in-list", "LastJailedKey="+short(v.head.LastJailedKey)+" is not an element of the list")
 			}
-			v.lastJIdx = idx
 		}
 	}
 	// (3) keys in the list == registered keys marked as waiting
